@@ -497,6 +497,9 @@ class PDPRuinRepairEnv(ImprovementEnvBase):
             visited_time[arange, solution[arange, pre]] = i + 1
             pre = solution[arange, pre]
 
+        # following the successors from the depot must reach every node: one cycle, no sub-tours
+        assert (visited_time > 0).all(), "Not a single tour through all nodes"
+
         assert (
             visited_time[:, 1 : graph_size // 2 + 1]
             < visited_time[:, graph_size // 2 + 1 :]
